@@ -380,7 +380,10 @@ func checkC13Rules(run *Run, res *Result) {
 				sig = "close-during-rebalance-window"
 			} else if mm.rebalanceAfterShutdown {
 				sig = "rebalance-timer-fired-during-or-after-shutdown"
-			} else if strings.Contains(res.FailStop, "not found on offset map") && strings.Contains(res.FailStop, "reopenStream") && mm.endBeforeStop {
+			} else if inReopen(run, res) && mm.endBeforeStop {
+				// (the retries fail with 'vbID not found on offset map', or - when a delayed re-open got through while the
+				// shutdown was closing the streams - with 'document exists' for the re-open after that; or the re-open
+				// itself dereferences the maps the shutdown has set to nil)
 				sig = "reopen-of-an-ended-stream-ran-into-the-shutdown"
 			}
 			res.violate("C13", "R1-crash-during-shutdown", len(run.Evs), sig, "member %d: the process died after Close() was called (event #%d): %s", m, mm.closeN, res.FailStop)
@@ -408,4 +411,17 @@ func checkC13Rules(run *Run, res *Result) {
 		}
 	}
 	_ = fmt.Sprint
+}
+
+// inReopen reports whether the goroutine that terminated the process was running stream.reopenStream.
+func inReopen(run *Run, res *Result) bool {
+	if strings.Contains(res.FailStop, "reopenStream") {
+		return true
+	}
+	for _, f := range topFrames(run.Stderr, 8) {
+		if strings.Contains(f, "stream.(*stream).reopenStream") {
+			return true
+		}
+	}
+	return false
 }
